@@ -308,3 +308,24 @@ Definition described (a : areq) : option view :=
 Definition framing_name (k : bytes) : bool :=
   equal_fold k (bs "content-length") || equal_fold k (bs "transfer-encoding").
 Definition no_framing_keys (h : list kv) : bool := forallb (fun x => negb (framing_name (fst x))) h.
+
+(* ---------- the caller's own fields, as each protocol carries them ----------
+   [managed_name]: names a writer treats specially (omitted as connection-specific on HTTP/2 and
+   HTTP/3, written by the transport itself, or re-shaped: User-Agent, Cookie, Trailer) - C16's
+   subject.  Everything else is the caller's data and must arrive the same way on every protocol. *)
+Definition managed_name (k : bytes) : bool :=
+  let l := to_lower k in
+  mem_bytes l h23_exclude || bytes_eqb l (bs "trailer") || bytes_eqb l (bs "user-agent") ||
+  bytes_eqb l (bs "cookie").
+Definition unmanaged_line (l : line) : bool := negb (managed_name (fst l)).
+
+(* names compared case-insensitively (HTTP/2 and HTTP/3 lower-case them), values as HTTP defines them *)
+Definition caller_fields_h1 (h : list kv) : list line :=
+  map (fun l => (to_lower (fst l), snd l)) (filter unmanaged_line (flatten (h1_user h))).
+Definition caller_fields_h23 (entry : kv -> list kv) (h : list kv) : list line :=
+  map (fun l => (to_lower (fst l), trim is_sp_tab (snd l))) (filter unmanaged_line (flatten (flat_map entry h))).
+
+(* the Cookie header Client.roundTrip builds: the caller-written value (if any), then one pair
+   per cookie, joined by "; " *)
+Definition cookie_header (cur : bytes) (cks : list (bytes * bytes)) : bytes :=
+  join_with (bs "; ") ((if is_nil cur then [] else [cur]) ++ map cookie_pair cks).
